@@ -228,7 +228,7 @@ func runC25(c *Ctx) {
 			}
 			for e := range f.BoolEdges(func(x ast.Expr) bool {
 				id, ok := x.(*ast.Ident)
-				return ok && id.Name == "ok" && f.isCommaOkOfTypeKeyedLookup(id)
+				return ok && f.isCommaOkOfTypeKeyedLookup(id)
 			}, false) {
 				ruledOut[e] = true
 			}
